@@ -10,6 +10,7 @@ import Kap.Gen.C05
 import Kap.Model.C05Parse
 import Kap.Model.C05Eval
 import Kap.Model.C05Rr
+import Kap.Model.C05Tags
 open Kap Kap.C05
 
 namespace Kap.C05.Drv
@@ -578,6 +579,14 @@ def judgeLine (a : Acc) (l : String) : Except Verdict Acc := do
       | some r => throw (.specfail r.1 s!"livex {node} {fn}: {r.2}")
       | none => pure { (a.add [s!"livex.{node}", s!"fn.{fn}"]) with nt := a.nt || pts.length ≥ 1 }
     | _ => throw (.badop l)
+  | ["tagscopy", n, key] =>
+    let some n := n.toInt? | throw (.badop l)
+    let src := Tags.source (if n < 0 then none else some n.toNat)
+    let model := Tags.observe Tags.copy src key
+    let obsS := " ".intercalate obs
+    if obsS != model then throw (.mismatch s!"tagscopy {n} {key}: model {model} observed {obsS}")
+    pure { (a.add [s!"tagscopy.{if n < 0 then "nil" else if n == 0 then "empty" else "nonempty"}",
+                   if src.get key == "" then "tagscopy.new-key" else "tagscopy.existing-key"]) with nt := a.nt }
   | ["live", node, bad] =>
     match obs with
     | ["X", how] => throw (.specfail (if how == "hang" then "terminates" else "process-survives") s!"live {node} {bad}: {how}")
